@@ -332,6 +332,11 @@ def cast(a, frm, to):
 
 
 # ---------------------------------------------------------------- evaluator
+def is_await_loop(fn, body):
+    """the poll loop an `.await` desugars to (contains the Yield); it is entered, and the poll model leaves it at once"""
+    return any(fn.blocks[b]["term"]["t"] == "yield" for b in body) and len(body) <= 12
+
+
 def normal_exit(fn, head, body):
     """exit target taken when the loop's controlling test ends the loop: the first exit edge found walking the
     blocks from the head along the straight-line prefix (the `next() == None` edge of a for loop, the false edge of a
@@ -389,6 +394,7 @@ class Evaluator:
         self._jid = 0
         self._discr_src = {}
         self._memo = {}
+        self.effects = []       # opaque calls made during evaluation (may-list, in evaluation order)
         self.summarize_loops = False   # when set, an inner loop is replaced by a havoc of the locals it assigns
         self.no_skip = set()            # loop heads that must be entered rather than summarised
 
@@ -694,7 +700,7 @@ class Evaluator:
                     return ("exit", bb, val)
             if self.summarize_loops and visits.get(bb, 0) == 0:
                 lp = fn.loops()
-                if bb in lp and bb not in self.no_skip and not (self.stop is not None and fn.path == self.stop[0] and bb == self.stop[1]):
+                if bb in lp and bb not in self.no_skip and not is_await_loop(fn, lp[bb]) and not (self.stop is not None and fn.path == self.stop[0] and bb == self.stop[1]):
                     return self._skip_loop(fn, bb, lp[bb], env, visits, depth, until)
             visits = dict(visits)
             visits[bb] = visits.get(bb, 0) + 1
@@ -917,6 +923,9 @@ class Evaluator:
         args = [self.operand(fn, env, a) for a in t["args"]]
         name = callee_name(t)
         declared = t.get("callee") or ""
+        if declared == "core::future::future::Future::poll" and args:
+            fut = self._mref_get(env, args[0]) if args[0][0] == "mref" else args[0]
+            return _m_poll(self, [fut], t, depth)
         if name == "core::option::Option::<T>::take" and args and args[0][0] == "mref":
             cur = self._mref_get(env, args[0])
             self._mref_set(env, args[0], NONE)
@@ -965,6 +974,7 @@ class Evaluator:
         target = self.prog.fn(name) or self.prog.fn(declared)
         if target is not None and target.path not in self.opaque_local and not target.is_coroutine:
             return self.eval_fn(target, args, depth + 1)
+        self.effects.append((name, tuple(args)))
         if target is not None and t.get("targs"):
             # keep the instantiation visible for opaque generic helpers (deserialize::<R, Header> vs ::<R, Block>)
             tys = [x["d"]["s"] for x in t["targs"] if x["d"].get("k") != "param"]
@@ -1014,7 +1024,7 @@ def _dec(proj):
 
 
 STD_ENUMS = {"core::option::Option": ["None", "Some"], "core::result::Result": ["Ok", "Err"],
-             "core::ops::control_flow::ControlFlow": ["Continue", "Break"]}
+             "core::ops::control_flow::ControlFlow": ["Continue", "Break"], "core::task::poll::Poll": ["Ready", "Pending"]}
 
 
 def callee_name(t):
@@ -1365,6 +1375,11 @@ def _m_discriminant_value(ev, a, t, d):
     return ev.discriminant(a[0])
 
 
+def _m_poll(ev, a, t, d):
+    fut = a[0]
+    return adt("core::task::poll::Poll", "Ready", (("0", ("await", fut)),))
+
+
 def _m_iop(name):
     def f(ev, a, t, d):
         return ("iop", name, a[0], a[1] if len(a) > 1 else UNIT)
@@ -1400,6 +1415,10 @@ DEFAULT_MODELS = {
     "alloc::vec::Vec::<T, A>::as_mut_slice": _ident,
     "core::array::<impl [T; N]>::as_slice": _ident,
     "core::hint::must_use": _ident,
+    "core::future::future::Future::poll": _m_poll,
+    "core::pin::Pin::<Ptr>::new_unchecked": _ident,
+    "<F as core::future::into_future::IntoFuture>::into_future": _ident,
+    "core::future::into_future::IntoFuture::into_future": _ident,
     "core::intrinsics::discriminant_value": _m_discriminant_value,
     "core::fmt::Arguments::<'a>::new": _m_fmt_args_new,
     "core::fmt::Arguments::<'a>::from_str": _m_fmt_from_str,
